@@ -196,9 +196,13 @@ func drive(args []string) int {
 	work := filepath.Join(*verif, ".build", "run-"+p.ID())
 	os.RemoveAll(work)
 	os.MkdirAll(work, 0755)
-	os.MkdirAll(filepath.Join(*verif, "evidence", "replays"), 0755)
+	evDir := filepath.Join(*verif, "evidence")
+	if d := os.Getenv("VERIF_EVIDENCE_DIR"); d != "" {
+		evDir = d // used when checks are run against seeded changes: keeps the committed evidence intact
+	}
+	os.MkdirAll(filepath.Join(evDir, "replays"), 0755)
 	if *replay == "" {
-		old, _ := filepath.Glob(filepath.Join(*verif, "evidence", "replays", p.ID()+"-*"))
+		old, _ := filepath.Glob(filepath.Join(evDir, "replays", p.ID()+"-*"))
 		for _, f := range old {
 			os.Remove(f)
 		}
@@ -333,7 +337,7 @@ func drive(args []string) int {
 					}
 				}
 				if !matched {
-					rp := filepath.Join(*verif, "evidence", "replays", fmt.Sprintf("%s-%d.json", p.ID(), r.Idx))
+					rp := filepath.Join(evDir, "replays", fmt.Sprintf("%s-%d.json", p.ID(), r.Idx))
 					var sc core.Scenario
 					if r.Idx >= 0 && r.Idx < n {
 						sc = plan[r.Idx]
@@ -385,7 +389,7 @@ func drive(args []string) int {
 			}
 			if !matched {
 				violCount++
-				rpth := filepath.Join(*verif, "evidence", "replays", fmt.Sprintf("%s-race-%s.txt", p.ID(), core.Hash(key)[:8]))
+				rpth := filepath.Join(evDir, "replays", fmt.Sprintf("%s-race-%s.txt", p.ID(), core.Hash(key)[:8]))
 				os.WriteFile(rpth, []byte(text), 0644)
 				unknownViol = append(unknownViol, fmt.Sprintf("VIOLATION property=%s replay=%s  [%s] data race reported by the race detector in library code", p.ID(), rpth, finger))
 			}
@@ -419,7 +423,7 @@ func drive(args []string) int {
 		"violations":  violCount,
 	}
 	b, _ := json.MarshalIndent(ev, "", " ")
-	os.WriteFile(filepath.Join(*verif, "evidence", p.ID()+".json"), b, 0644)
+	os.WriteFile(filepath.Join(evDir, p.ID()+".json"), b, 0644)
 
 	fmt.Printf("[%s] ran=%d/%d held=%d violated=%d inconclusive=%d distinct_nontrivial=%d signatures=%d races(lib)=%d wall=%.1fs\n",
 		p.ID(), len(all), n, counts[core.Held], counts[core.Violated], counts[core.Inconclusive], len(distinct), len(sigs), len(raceLib), time.Since(t0).Seconds())
